@@ -102,14 +102,18 @@ var (
 	verifRejected    bool
 )
 
+// model frame: tag, payload length (one byte: model payloads are short), payload.
+// Like the real block format, the frame declares its decoded length: the
+// snappy model rejects input that is longer or shorter than its frame, the
+// deflate model stops reading at the end of the first frame.
 func verifStub_snappy_Encode(dst, src []byte) []byte {
-	out := make([]byte, 0, len(src)+1)
-	out = append(out, verifTagSnappy)
+	out := make([]byte, 0, len(src)+2)
+	out = append(out, verifTagSnappy, byte(len(src)))
 	return append(out, src...)
 }
 
 func verifStub_snappy_Decode(dst, src []byte) ([]byte, error) {
-	if len(src) < 1 || src[0] != verifTagSnappy {
+	if len(src) < 2 || src[0] != verifTagSnappy || int(src[1]) != len(src)-2 {
 		verifRejected = true
 		return nil, errVerifCorrupt
 	}
@@ -117,8 +121,8 @@ func verifStub_snappy_Decode(dst, src []byte) ([]byte, error) {
 		verifRejected = true
 		return nil, errVerifCorrupt
 	}
-	out := make([]byte, len(src)-1)
-	copy(out, src[1:])
+	out := make([]byte, len(src)-2)
+	copy(out, src[2:])
 	return out, nil
 }
 
@@ -154,7 +158,7 @@ func verifStub_flate_Writer_Write(fw *flate.Writer, p []byte) (int, error) {
 
 func verifStub_flate_Writer_Close(fw *flate.Writer) error {
 	st := verifDeflWriters[fw]
-	out := append([]byte{verifTagDeflate}, st.buf...)
+	out := append([]byte{verifTagDeflate, byte(len(st.buf))}, st.buf...)
 	_, err := st.dst.Write(out)
 	return err
 }
@@ -196,18 +200,19 @@ func (f *verifInflater) Read(p []byte) (int, error) {
 				break
 			}
 		}
-		if len(all) < 1 || all[0] != verifTagDeflate {
+		if len(all) < 2 || all[0] != verifTagDeflate || int(all[1]) > len(all)-2 {
 			verifRejected = true
 			f.err = errVerifCorrupt
 		} else if verifAllowReject && verifNondetBool("stub.inflate.reject") {
 			verifRejected = true
 			// the real inflater detects some corruptions only after having
 			// produced output: deliver a prefix, then fail
-			k := verifChoice("stub.inflate.prefix", len(all))
-			f.data = all[1 : 1+k]
+			k := verifChoice("stub.inflate.prefix", int(all[1])+1)
+			f.data = all[2 : 2+k]
 			f.err = errVerifCorrupt
 		} else {
-			f.data = all[1:]
+			// the stream ends where its frame ends; what follows is not read
+			f.data = all[2 : 2+int(all[1])]
 		}
 	}
 	if f.pos < len(f.data) {
